@@ -307,7 +307,7 @@ func renderSafe(files map[string]string, cfg map[string]any) (res pkgw.RenderRes
 
 func runPackages(o checks.Opts) *report.Report {
 	rep := report.New("C19", "package-pipeline")
-	rep.Rule = "package file sets through the real load -> validate -> render -> phase collection pipeline under recover(): object annotation values (condition-map, collision-protection, phase, CEL condition) from a list incl. malformed ones; path shapes (empty name, components/x, components//y, leading dot, double template suffix, deep nesting); manifest shapes (no spec, duplicate phases, empty phase name, no phases, wrong kind, list instead of map); config shapes against an integer schema; distinct = outcome class"
+	rep.Rule = "package file sets through the real load -> validate -> render -> phase collection pipeline under recover(): object annotation values (condition-map, collision-protection, phase, CEL condition) from a list incl. malformed ones; path shapes (empty name, components/x, components//y, leading dot, double template suffix, deep nesting); manifest shapes (no spec, duplicate phases, empty phase name, no phases, wrong kind, list instead of map); config shapes against an integer schema; CEL expressions (statically bool / non-bool / dynamically typed, compile and run-time errors) at the condition annotation, named manifest conditions, path conditions and the template cel function x 3 configs; distinct = outcome class"
 	base := func() map[string]string {
 		return map[string]string{"manifest.yaml": pkgw.Manifest{Name: "app", Phases: []string{"p1", "p2"}, ConfigProps: map[string]string{"x": "integer"}}.YAML(),
 			"a.yaml": pkgw.WidgetYAML("Widget", "a", "p1", "1", nil)}
@@ -370,6 +370,47 @@ func runPackages(o checks.Opts) *report.Report {
 		obj := obj
 		add(fmt.Sprintf("object document %q", obj), func(m map[string]string) { m["o.yaml"] = obj }, nil)
 	}
+	// CEL filter expressions at every site that evaluates them, crossed with config values: the
+	// expression grammar covers statically-bool, statically-non-bool, dynamically typed (field
+	// access on the template context) with bool and non-bool values, errors at compile and at run time.
+	celExprs := []string{"true", "false", "2 + 3", `"x"`, "null", "[1, 2]", "config", "config.x", "config.s", "config.b", "config.missing",
+		"!config.b", "config.x == 1", "config.x > 0", "config.s == \"true\"", "has(config.x)", "has(config.missing)", "size(config) > 0",
+		"package.metadata.name", "package.metadata.name == \"inst\"", "environment.kubernetes.version", "environment.openShift", "images",
+		"config.x / 0 == 1", "config.s + 1", "config[0]", "1 +", "", "cond.other", "undefinedvar", "config.b ? 1 : 2", "config.b ? true : config.s", "dyn(1)", "dyn(true)"}
+	celConfigs := []struct {
+		name string
+		cfg  map[string]any
+	}{{"none", nil}, {"x=1,s=true,b=true", map[string]any{"x": int64(1), "s": "true", "b": true}}, {"x=0,s=,b=false", map[string]any{"x": int64(0), "s": "", "b": false}}}
+	celManifest := func(conds, paths map[string]string) string {
+		return pkgw.Manifest{Name: "app", Phases: []string{"p1", "p2"}, ConfigProps: map[string]string{"x": "integer", "s": "string", "b": "boolean"}, Conditions: conds, Paths: paths}.YAML()
+	}
+	for _, ex := range celExprs {
+		for _, cc := range celConfigs {
+			ex, cc := ex, cc
+			yamlEx := strings.ReplaceAll(ex, `"`, `\"`)
+			add(fmt.Sprintf("CEL condition annotation %q config %s", ex, cc.name), func(m map[string]string) {
+				m["manifest.yaml"] = celManifest(nil, nil)
+				doc := pkgw.WidgetYAML("Widget", "z", "p2", "1", nil)
+				m["z.yaml"] = strings.Replace(doc, "  annotations:\n", "  annotations:\n    package-operator.run/condition: \""+yamlEx+"\"\n", 1)
+			}, cc.cfg)
+			if !strings.Contains(ex, "'") {
+				add(fmt.Sprintf("CEL named condition %q config %s", ex, cc.name), func(m map[string]string) {
+					m["manifest.yaml"] = celManifest(map[string]string{"c": ex}, nil)
+					doc := pkgw.WidgetYAML("Widget", "z", "p2", "1", nil)
+					m["z.yaml"] = strings.Replace(doc, "  annotations:\n", "  annotations:\n    package-operator.run/condition: \"cond.c\"\n", 1)
+				}, cc.cfg)
+				add(fmt.Sprintf("CEL path condition %q config %s", ex, cc.name), func(m map[string]string) {
+					m["manifest.yaml"] = celManifest(nil, map[string]string{"sub/**": ex})
+					m["sub/z.yaml"] = pkgw.WidgetYAML("Widget", "z", "p2", "1", nil)
+				}, cc.cfg)
+				add(fmt.Sprintf("CEL template function %q config %s", ex, cc.name), func(m map[string]string) {
+					m["manifest.yaml"] = celManifest(nil, nil)
+					m["t.yaml.gotmpl"] = pkgw.WidgetYAML("Widget", "t", "p2", "{{ cel `"+ex+"` }}", nil)
+				}, cc.cfg)
+			}
+		}
+	}
+	rep.Bounds["cel_expressions"] = len(celExprs)
 	rep.Bounds["cases"] = len(cases)
 	for i, c := range cases {
 		if o.Shards > 1 && i%o.Shards != o.Shard {
